@@ -23,7 +23,7 @@ MASKS = {
 def spacetime_case(draw, kinds=("Wp", "Wp", "Wp", "Wn", "F", "KS", "PP"),
                    orders_p=(2, 4, 4, 6, 8), orders_n=(2, 4, 4),
                    np_range=(10, 13), extra_n=(3, 5), masks=True,
-                   static=False):
+                   static=False, trim=3):
     kind = draw(st.sampled_from(list(kinds)))
     c = dict(kind=kind)
     if kind in ("Wp", "FLp"):
@@ -42,7 +42,7 @@ def spacetime_case(draw, kinds=("Wp", "Wp", "Wp", "Wn", "F", "KS", "PP"),
     else:
         order = draw(st.sampled_from(list(orders_n)))
         m = order // 2
-        N = [6 * m + draw(st.integers(*extra_n)) for _ in range(3)]
+        N = [2 * trim * m + draw(st.integers(*extra_n)) for _ in range(3)]
         h = [draw(dy(0.08, 0.14)) for _ in range(3)]
         L = [(n - 1) * x for n, x in zip(N, h)]
         c.update(boundary="no boundary", N=N, h=h, mask="generic")
@@ -64,7 +64,8 @@ def spacetime_case(draw, kinds=("Wp", "Wp", "Wp", "Wn", "F", "KS", "PP"),
             raise ValueError(kind)
     x0 = [draw(dy(-1.0, 0.0, 64)) for _ in range(3)] if kind != "KS" \
         else [-round(32 * l) / 64 for l in L]
-    c.update(spec=spec, t=draw(f(-1, 1)), order=order, x0=x0, L=L)
+    c.update(spec=spec, t=draw(f(-1, 1)), order=order, x0=x0, L=L,
+             trim=trim)
     return c
 
 
@@ -83,32 +84,32 @@ def generic_W(order=4, t=0.3):
                 boundary="periodic", mask="generic", kind="Wp", order=order)
 
 
-def generic_KS(order=4, t=0.2):
+def generic_KS(order=4, trim=3, t=0.2):
     ks = dict(family="KS", params=dict(M=0.2, boost=[0.2, -0.1, 0.15],
                                        rot=[0.3, -0.5, 0.2],
                                        offset=[0.0, 3.5, 0.4, -0.3]))
     m = order // 2
-    N = [6 * m + 4, 6 * m + 3, 6 * m + 5]
+    N = [2 * trim * m + 4, 2 * trim * m + 3, 2 * trim * m + 5]
     h = [0.109375, 0.109375, 0.109375]
     return dict(spec=ks, t=t, x0=[-0.8125, -0.75, -0.875], h=h, N=N,
                 L=[(n - 1) * x for n, x in zip(N, h)],
                 boundary="no boundary", order=order, mask="generic",
-                kind="KS")
+                kind="KS", trim=trim)
 
 
-def generic_PP(order=4, t=0.1):
+def generic_PP(order=4, trim=3, t=0.1):
     pp = dict(family="PP", params=dict(f=[0.05, 1.1, 0.3],
                                        h=[0.04, 0.8, 1.2]))
     m = order // 2
-    N = [6 * m + 4, 6 * m + 3, 6 * m + 5]
+    N = [2 * trim * m + 4, 2 * trim * m + 3, 2 * trim * m + 5]
     h = [0.109375, 0.125, 0.09375]
     return dict(spec=pp, t=t, x0=[-0.5, -0.75, -0.625], h=h, N=N,
                 L=[(n - 1) * x for n, x in zip(N, h)],
                 boundary="no boundary", order=order, mask="generic",
-                kind="PP")
+                kind="PP", trim=trim)
 
 
-def generic_FL(order=4, t=0.4, periodic=True):
+def generic_FL(order=4, t=0.4, periodic=True, trim=3):
     fl = dict(family="FL", params=dict(N=[0.3, 1.2, 0.5],
                                        a=[1.1, 0.2, 0.05, 1.3]))
     if periodic:
@@ -117,12 +118,12 @@ def generic_FL(order=4, t=0.4, periodic=True):
                     L=[n * x for n, x in zip(N, h)], boundary="periodic",
                     order=order, mask="generic", kind="FLp")
     m = order // 2
-    N = [6 * m + 4, 6 * m + 3, 6 * m + 5]
+    N = [2 * trim * m + 4, 2 * trim * m + 3, 2 * trim * m + 5]
     h = [0.109375, 0.125, 0.09375]
     return dict(spec=fl, t=t, x0=[-0.5, -0.75, -0.625], h=h, N=N,
                 L=[(n - 1) * x for n, x in zip(N, h)],
                 boundary="no boundary", order=order, mask="generic",
-                kind="FL")
+                kind="FL", trim=trim)
 
 
 def nontrivial_flags(ex):
